@@ -1320,6 +1320,29 @@ func (e *Engine) convert(st *State, v Value, from, to types.Type, instr ssa.Inst
 				}
 				return &StrV{bytes: bytes}
 			}
+			// symbolic length (e.g. the count of a short read): the first len bytes of up
+			// to 8 cells; usable for len() and ==/!= against a constant. A length above
+			// 8 is outside the encoding (path obligation below).
+			if !sv.len.IsConst() && sv.off.IsConst() {
+				maxN := 8
+				for _, a := range sv.alts {
+					if room := a.n - a.base - int(sv.off.Int64()); room < maxN {
+						maxN = room
+					}
+				}
+				if maxN >= 0 {
+					if tooLong := SLt(BVConst(int64(maxN), 64), sv.len); !tooLong.IsFalse() {
+						e.addQuery("panic", "engine limit: string([]byte) of symbolic length above 8 bytes", And(st.g, tooLong), instr)
+						st.g = And(st.g, Not(tooLong))
+					}
+					bytes := make([]*Term, maxN)
+					for i := 0; i < maxN; i++ {
+						p := e.elemPtr(sv.alts, Add(sv.off, BVConst(int64(i), 64)), 1)
+						bytes[i] = e.load(st, p, sl.Elem(), instr).(*Term)
+					}
+					return &StrV{bytes: bytes, lenT: sv.len}
+				}
+			}
 		}
 	}
 	if _, ok := to.Underlying().(*types.Pointer); ok {
@@ -1357,6 +1380,23 @@ func strBytesEq(x, y *StrV) *Term {
 			return bs
 		}
 		panic(unsupported("comparison of a byte-string with a symbolic string id"))
+	}
+	if x.bytes != nil && x.lenT != nil || y.bytes != nil && y.lenT != nil {
+		// symbolic-length prefix string against a concrete string
+		if y.conc {
+			x, y = y, x
+		}
+		if !x.conc || y.lenT == nil {
+			panic(unsupported("comparison of two symbolic-length byte-strings"))
+		}
+		if len(x.s) > len(y.bytes) {
+			return TFalse
+		}
+		cs := []*Term{Eq(y.lenT, BVConst(int64(len(x.s)), 64))}
+		for i := 0; i < len(x.s); i++ {
+			cs = append(cs, Eq(y.bytes[i], BVConst(int64(x.s[i]), 8)))
+		}
+		return And(cs...)
 	}
 	a, b := bytesOf(x), bytesOf(y)
 	if len(a) != len(b) {
@@ -1640,6 +1680,9 @@ func (e *Engine) builtin(st *State, name string, args []Value, site ssa.Instruct
 		case *StrV:
 			if x.conc {
 				return st, BVConst(int64(len(x.s)), 64)
+			}
+			if x.bytes != nil && x.lenT != nil {
+				return st, x.lenT
 			}
 			if x.bytes != nil {
 				return st, BVConst(int64(len(x.bytes)), 64)
